@@ -1000,7 +1000,11 @@ def fwdlate(rng):
         if rng.random() < 0.85:
             ops.append({"op": "claim", "pay": k})
     ops.append({"op": "settle_chain", "keep_holds": True, "blocks": rng.choice([2, 4, 7, 8, 10, 14, 20]), "async": [1] if slow else []})
-    ops.append({"op": "crash", "node": 1, "mgr": rng.choice(["saved", 0, 0, 1]), "mon": rng.choice(["durable", "durable", "latest", "random"])})
+    crash = {"op": "crash", "node": 1, "mgr": rng.choice(["saved", "saved", 0, 0, 1]), "mon": rng.choice(["durable", "durable", "latest", "random"])}
+    if rng.random() < 0.6:
+        # the writes of the closed channel's monitor landed, those of the upstream channel's did not
+        crash["mon_by_peer"] = {"0": "durable", "2": "latest"}
+    ops.append(crash)
     ops += [{"op": "reconnect", "a": 0, "b": 1}, {"op": "reconnect", "a": 1, "b": 2}]
     ops += _deliveries(rng, [(0, 1), (1, 0)], rng.randrange(0, 6))
     ops.append({"op": "settle_chain"})
